@@ -238,7 +238,18 @@ Definition chunk_at (bs : list N) (vlen : N) (off : N) : rd_res :=
 (* ------------------------------------------------------------------ the state machine *)
 Record job := mkJob { j_cut : bool; j_ref : ref; j_rec : rec }.
 
-Inductive wstate := WIdle | WStart (j : job) | WDone (j : job).
+(* The queue worker.  WStart j: job popped, writeChunk not begun.  WRun j p: inside writeChunk(j),
+   p = the next action (each action is one atomic step of the model):
+     PClr1  chunkBuffer.clear() of cut()'s finalizeCurFile (its Flush is done)
+     PNew   cutSegmentFile + new mapping + cutAndExpectRef
+     PPre   the flush-before-write decision (and that flush's chkWriter.Flush())
+     PClr2  chunkBuffer.clear() of that flush
+     PApp   header, data, CRC into chkWriter; chunkBuffer.put
+     PPost  chkWriter.Flush() of the flush after a chunk >= the buffer
+     PClr3  chunkBuffer.clear() of that flush
+   WDone j: writeChunk and the callback done, ref still in chunkRefMap. *)
+Inductive wpc := PClr1 | PNew | PPre | PClr2 | PApp | PPost | PClr3.
+Inductive wstate := WIdle | WStart (j : job) | WRun (j : job) (p : wpc) | WDone (j : job).
 
 Record st := mkSt {
   ev_seq : N; ev_off : N; ev_cut : bool;          (* evtlPos *)
@@ -265,14 +276,18 @@ Inductive step :=
 | SWrite (r : rec)        (* WriteChunk *)
 | SCut                    (* CutNewFile *)
 | STrunc (n : N)          (* Truncate(n) *)
-| SPop | SProc | SDone    (* worker: jobs.pop / writeChunk + callback / delete from chunkRefMap *)
+| SPop | SProc | SDone    (* worker: jobs.pop / writeChunk + callback (run to its end) / delete from chunkRefMap *)
+| SMicro                  (* worker: one atomic action of writeChunk *)
+| SSite (b : bool)        (* worker: run on to the next flushBuffer pause point: false = just before
+                             chkWriter.Flush(), true = between Flush() and chunkBuffer.clear() *)
 | SRead (r : ref).        (* Chunk(r) *)
 
 Inductive out :=
 | ORef (r : ref)          (* WriteChunk's result *)
 | ONone
 | OTrunc (before after : list N)   (* numbers of the mapped files before and after Truncate *)
-| OProc (ok : bool) (seq off : N)  (* the error handed to the callback (true = nil); curFileSequence, curFileOffset *)
+| OProc (ok : bool) (seq off : N) (nfl : N)  (* the error handed to the callback (true = nil); curFileSequence,
+                                               curFileOffset; flushes begun during this step *)
 | ORead (r : rd_res)
 | OBlocked                (* the step is not enabled in this state (the call would block) *)
 | OPanic.                 (* nil chkWriter *)
@@ -283,10 +298,15 @@ Fixpoint set_file (seq : N) (f : list N -> list N) (fs : list (N * list N)) : li
   | (q, bs) :: t => if q =? seq then (q, f bs) :: t else (q, bs) :: set_file seq f t
   end.
 
-(* flushBuffer: chkWriter.Flush(); chunkBuffer.clear() *)
-Definition flush (s : st) : st :=
-  mkSt (ev_seq s) (ev_off s) (ev_cut s) (queue s) (pend s) (wk s) [] (cur_open s) (cur_seq s) (cur_off s) []
+(* flushBuffer = chkWriter.Flush() then chunkBuffer.clear(): two atomic steps (a reader holds only
+   readPathMtx.RLock, which does not exclude the writer) *)
+Definition flushout (s : st) : st :=
+  mkSt (ev_seq s) (ev_off s) (ev_cut s) (queue s) (pend s) (wk s) (cbuf s) (cur_open s) (cur_seq s) (cur_off s) []
        (set_file (cur_seq s) (fun bs => bs ++ wbuf s) (files s)) (born s).
+Definition clearbuf (s : st) : st :=
+  mkSt (ev_seq s) (ev_off s) (ev_cut s) (queue s) (pend s) (wk s) [] (cur_open s) (cur_seq s) (cur_off s) (wbuf s)
+       (files s) (born s).
+Definition flush (s : st) : st := clearbuf (flushout s).
 
 (* WriteChunk: getNextChunkRef, then addJob.  Blocks while the job queue is full. *)
 Definition do_write (s : st) (r : rec) : st * out :=
@@ -327,38 +347,86 @@ Definition do_pop (s : st) : st * out :=
   | _, _ => (s, OBlocked)
   end.
 
-(* cut(): finalizeCurFile (flush, sync, close), cutSegmentFile (next number = largest in the
-   directory + 1, header written), new mapping, chkWriter.Reset *)
-Definition do_cutfile (s : st) : st :=
-  let s1 := if cur_open s then flush s else s in
-  let nseq := dmax (files s1) + 1 in
-  mkSt (ev_seq s1) (ev_off s1) (ev_cut s1) (queue s1) (pend s1) (wk s1) (cbuf s1)
-       true nseq 8 [] (files s1 ++ [(nseq, hc_header)]) (nseq :: born s1).
-
 Definition set_wk (s : st) (w : wstate) : st :=
   mkSt (ev_seq s) (ev_off s) (ev_cut s) (queue s) (pend s) w (cbuf s)
        (cur_open s) (cur_seq s) (cur_off s) (wbuf s) (files s) (born s).
 
-(* writeChunk(job) followed by the callback *)
-Definition do_proc (s : st) : st * out :=
+(* cut() after finalizeCurFile: cutSegmentFile (next number = largest in the directory + 1, header
+   written), new mapping, chkWriter.Reset *)
+Definition newfile (s : st) : st :=
+  mkSt (ev_seq s) (ev_off s) (ev_cut s) (queue s) (pend s) (wk s) (cbuf s)
+       true (dmax (files s) + 1) 8 [] (files s ++ [(dmax (files s) + 1, hc_header)]) ((dmax (files s) + 1) :: born s).
+
+(* the chunk's bytes go to the writer, the chunk into chunkBuffer *)
+Definition append (s : st) (j : job) : st :=
+  mkSt (ev_seq s) (ev_off s) (ev_cut s) (queue s) (pend s) (WDone j) ((j_ref j, j_rec j) :: cbuf s)
+       (cur_open s) (cur_seq s) (cur_off s + nlen (encode_rec (j_rec j))) (wbuf s ++ encode_rec (j_rec j))
+       (files s) (born s).
+
+Definition pre_flush (s : st) (j : job) : bool :=
+  let dl := nlen (r_data (j_rec j)) in (dl + 34 <? bufsize) && (bufsize - nlen (wbuf s) <? 34 + dl).
+
+Inductive mres := MMore | MFin (ok : bool) | MPanic | MIdle.
+
+(* one atomic action of writeChunk(job) (the callback runs with the last one) *)
+Definition micro (s : st) : st * mres :=
   match wk s with
   | WStart j =>
-      let s1 := if j_cut j then do_cutfile s else s in
-      if j_cut j && negb (ref_eqb (cur_seq s1, 8) (j_ref j)) then
-        (set_wk s1 (WDone j), OProc false (cur_seq s1) (cur_off s1))                  (* cutAndExpectRef fails *)
-      else if negb (cur_open s1) then (s, OPanic)            (* cdm.chkWriter == nil *)
-      else
-        let r := j_rec j in
-        let dl := nlen (r_data r) in
-        let small := dl + 34 <? bufsize in
-        let s2 := if small && (bufsize - nlen (wbuf s1) <? 34 + dl) then flush s1 else s1 in
-        let bytes := encode_rec r in
-        let s3 := mkSt (ev_seq s2) (ev_off s2) (ev_cut s2) (queue s2) (pend s2) (WDone j)
-                       ((j_ref j, r) :: cbuf s2) (cur_open s2) (cur_seq s2)
-                       (cur_off s2 + nlen bytes) (wbuf s2 ++ bytes) (files s2) (born s2) in
-        ((if small then s3 else flush s3), OProc true (cur_seq s3) (cur_off s3))
-  | _ => (s, OBlocked)
+      if j_cut j then
+        (if cur_open s then (set_wk (flushout s) (WRun j PClr1), MMore)   (* finalizeCurFile: Flush() *)
+         else (set_wk s (WRun j PNew), MMore))
+      else (set_wk s (WRun j PPre), MMore)
+  | WRun j PClr1 => (set_wk (clearbuf s) (WRun j PNew), MMore)
+  | WRun j PNew =>
+      let s1 := newfile s in
+      if negb (ref_eqb (cur_seq s1, 8) (j_ref j)) then (set_wk s1 (WDone j), MFin false)   (* cutAndExpectRef fails *)
+      else (set_wk s1 (WRun j PPre), MMore)
+  | WRun j PPre =>
+      if negb (cur_open s) then (s, MPanic)                                 (* cdm.chkWriter == nil *)
+      else if pre_flush s j then (set_wk (flushout s) (WRun j PClr2), MMore)
+      else (set_wk s (WRun j PApp), MMore)
+  | WRun j PClr2 => (set_wk (clearbuf s) (WRun j PApp), MMore)
+  | WRun j PApp =>
+      if nlen (r_data (j_rec j)) + 34 <? bufsize then (append s j, MFin true)
+      else (set_wk (append s j) (WRun j PPost), MMore)
+  | WRun j PPost => (set_wk (flushout s) (WRun j PClr3), MMore)
+  | WRun j PClr3 => (set_wk (clearbuf s) (WDone j), MFin true)
+  | _ => (s, MIdle)
   end.
+
+(* the worker stands at a pause point of flushBuffer: b = false just before chkWriter.Flush(),
+   b = true between Flush() and chunkBuffer.clear() *)
+Definition at_site (b : bool) (s : st) : bool :=
+  match wk s with
+  | WStart j => negb b && j_cut j && cur_open s
+  | WRun j PPre => negb b && cur_open s && pre_flush s j
+  | WRun _ PPost => negb b
+  | WRun _ PClr1 | WRun _ PClr2 | WRun _ PClr3 => b
+  | _ => false
+  end.
+
+Fixpoint to_site (fuel : nat) (b : bool) (s : st) : option st :=
+  if at_site b s then Some s else
+  match fuel with
+  | O => None
+  | S f => match micro s with (s', MMore) => to_site f b s' | _ => None end
+  end.
+
+(* writeChunk(job) run to its end, followed by the callback; nfl counts the flushes begun *)
+Fixpoint run_micro (fuel : nat) (nfl : N) (s : st) : st * out :=
+  match fuel with
+  | O => (s, OBlocked)
+  | S f =>
+      let fl := if at_site false s then nfl + 1 else nfl in
+      match micro s with
+      | (s', MMore) => run_micro f fl s'
+      | (s', MFin ok) => (s', OProc ok (cur_seq s') (cur_off s') fl)
+      | (_, MPanic) => (s, OPanic)
+      | (_, MIdle) => (s, OBlocked)
+      end
+  end.
+
+Definition do_proc (s : st) : st * out := run_micro 10 0 s.
 
 Definition do_done (s : st) : st * out :=
   match wk s with
@@ -392,6 +460,8 @@ Definition do_step (s : st) (x : step) : st * out :=
   | SPop => do_pop s
   | SProc => do_proc s
   | SDone => do_done s
+  | SMicro => (fst (micro s), ONone)
+  | SSite b => match to_site 10 b s with Some s' => (s', ONone) | None => (s, OBlocked) end
   | SRead rf => (s, ORead (do_read s rf))
   end.
 
